@@ -254,7 +254,7 @@ def canon(o, ctx, depth=0):
     if _is_tc(o):
         d = o.__dict__
         nt = d.get("_non_tensordict", {})
-        return ["TC", type(o).__name__, canon(d.get("_tensordict"), ctx, depth + 1), sorted([k, _py(v)] for k, v in nt.items())]
+        return ["TC", type(o).__name__, canon(d.get("_tensordict"), {"ids": {}}, depth + 1), sorted([k, _py(v)] for k, v in nt.items())]
     if isinstance(o, t["Base"]):
         ent = []
         try:
@@ -332,8 +332,8 @@ def erase(c):
         return [c[0], "*"] + c[2:6] + [[[k, erase(v)] for k, v in c[6]]]
     if tag == "NT":
         return c[1]      # NonTensorData(v) and the bare value v are the same content (attribute access unwraps)
-    if tag in ("tuple", "list", "iter"):
-        return [tag, [erase(x) for x in c[1]] if isinstance(c[1], list) else c[1]]
+    if tag in ("tuple", "list", "iter", "seq"):
+        return ["seq", [erase(x) for x in c[1]] if isinstance(c[1], list) else c[1]]
     if tag == "dict":
         return [tag, [[k, erase(v)] for k, v in c[1]]]
     if tag == "namedtuple":
@@ -472,8 +472,12 @@ def tensor(shape, dtype="float32", kind="arange"):
     return ["tensor", list(shape), dtype, kind]
 
 
-def keys_of(cname):
+def keys_of(cname, layout="plain"):
     """(tensor field, second tensor field, non-tensor field, None field, absent name, nested key or None)"""
+    if layout == "legacy":
+        # non-tensor payloads live in _non_tensordict: the underlying tensordict has no such key to compare with
+        k = keys_of(cname)
+        return dict(k, nt=k["t2"])
     if cname in ("Nest", "SubNest"):
         return {"t": "z", "t2": "z", "nt": "tag", "none": None, "absent": "qq", "nested": ["tup", L("inner"), L("x")], "sub": "inner"}
     if cname == "Shadow":
@@ -491,7 +495,7 @@ def leaf_shape(cname, key):
 
 def cand(pname, mname, cname, layout):
     """candidate descriptors for a parameter, by its name (and a few method-specific refinements)"""
-    K = keys_of(cname)
+    K = keys_of(cname, layout)
     bs = list(BS)
     key_c = [L(K["t"]), L(K["nt"]), L(K["absent"])] + ([L(K["none"])] if K["none"] else []) + ([K["nested"]] if K["nested"] else []) \
         + ([L(K["sub"])] if K["sub"] else [])
@@ -607,7 +611,7 @@ def cand(pname, mname, cname, layout):
 
 # methods whose signature is (*args, **kwargs) or whose argument semantics cannot be read off the parameter names
 def special(mname, cname, layout):
-    K = keys_of(cname)
+    K = keys_of(cname, layout)
     bs = list(BS)
     S = {
         "expand": [([L(2), L(3), L(2)], {}), ([["size", [4, 3, 2]]], {})],
@@ -684,6 +688,7 @@ def special(mname, cname, layout):
 
 # why a method cannot be exercised in this sandbox (kept in the evidence; never silently skipped)
 UNSYNTH = {
+    "from_dict_instance": "template-driven typed constructor of the tensorclass; its tensordict namesake has other semantics (not compared)",
     "send": "needs torch.distributed process group", "recv": "needs torch.distributed process group",
     "isend": "needs torch.distributed process group", "irecv": "needs torch.distributed process group",
     "reduce": "needs torch.distributed process group", "gather_and_stack": "needs torch.distributed process group",
@@ -753,8 +758,8 @@ def synth(mname, cname, layout, variant, rng):
             continue
         val = cs[v % len(cs)]
         v //= len(cs)
-        if p.kind == p.KEYWORD_ONLY or (has_default and p.kind != p.POSITIONAL_ONLY and rng.random() < 0.5):
-            kwargs[p.name] = val
+        if p.kind == p.KEYWORD_ONLY or (has_default and p.kind != p.POSITIONAL_ONLY):
+            kwargs[p.name] = val      # optional parameters by keyword: positional order differs between container classes
         else:
             if kwargs and p.kind != p.KEYWORD_ONLY:
                 kwargs[p.name] = val
@@ -790,14 +795,14 @@ OPS = {
     "__enter__": ("un", _with), "__exit__": ("un", _with),
     "__getstate__": ("un", lambda s: pickle.loads(pickle.dumps(s))), "__setstate__": ("un", lambda s: pickle.loads(pickle.dumps(s))),
 }
-NOT_OPERATORS = {"__abstractmethods__", "__annotations__", "__class_getitem__", "__dict__", "__doc__", "__init__", "__module__",
+NOT_OPERATORS = {"__hash__", "__abstractmethods__", "__annotations__", "__class_getitem__", "__dict__", "__doc__", "__init__", "__module__",
                  "__slots__", "__subclasshook__", "__weakref__", "__torch_function__"}
 
 
 def api_dunders():
     TD = T()["TD"]
     return sorted(n for n in dir(TD) if n.startswith("__") and n.endswith("__")
-                  and any(n in K.__dict__ for K in TD.__mro__ if K is not object))
+                  and any(n in K.__dict__ for K in TD.__mro__ if K.__module__.startswith("tensordict")))
 
 
 def public_names():
@@ -807,7 +812,7 @@ def public_names():
 
 def op_variants(dunder, cname, layout):
     """argument descriptors for an operator"""
-    K = keys_of(cname)
+    K = keys_of(cname, layout)
     kind = OPS[dunder][0]
     boolish = dunder in ("__and__", "__or__", "__xor__", "__rand__", "__ror__", "__rxor__", "__invert__")
     if kind == "un":
@@ -871,6 +876,12 @@ SURVIVE = {
 }
 # results that are tensordicts by purpose, not data of the class: a bare result is what the operation promises
 CONVERSIONS = {"to_tensordict": "conversion to a plain tensordict", "data_ptr": "a report (tensordict of addresses), not data of the class"}
+
+
+# python / serialisation formats: a nested tensorclass contributes its own format (None fields, {"_tensordict": ...}); when the
+# call is issued on an enclosing tensordict only success / failure is compared
+FORMATS = {"to_dict", "tolist", "state_dict", "to_namedtuple", "to_pytree", "to_struct_array", "numpy", "to_tensordict", "data_ptr",
+           "items", "values", "non_tensor_items"}
 
 
 def exc_name(e):
@@ -954,7 +965,16 @@ def invoke(case, side):
         if recipe:
             res = run_recipe(recipe, case, target, args, kwargs, mat, tmp)
         elif mode == "call":
-            res = getattr(target, name)(*args, **kwargs)
+            if side == "td" and not outer and inspect.ismethod(getattr(t["TD"], name, None)) and type(target) is not t["TD"]:
+                # constructors (classmethods): the reference is what the underlying container's class gives, or, where that
+                # container class cannot build from the input (lazy stacks), what TensorDict gives
+                try:
+                    res = getattr(target, name)(*args, **kwargs)
+                except Exception as e0:  # noqa: BLE001
+                    obs["instance_raises"] = exc_name(e0)
+                    res = getattr(t["TD"], name)(*args, **kwargs)
+            else:
+                res = getattr(target, name)(*args, **kwargs)
         elif mode == "attr":
             res = getattr(target, name)
         elif mode == "setattr":
@@ -1046,8 +1066,10 @@ def wrap_problems(tc_c, td_c, cls, fields, path="result", depth=0):
         return out
     tag = td_c[0]
     if tag == "REF":
-        if td_c[1].startswith("ARG") and isinstance(tc_c, list) and tc_c and tc_c[0] == "TC" and tc_c[1] == cls:
-            return out      # an input passed through by the tensordict may come back wrapped in the class
+        if (td_c[1].startswith("ARG") or td_c[1] == "SELF") and isinstance(tc_c, list) and tc_c and tc_c[0] == "TC" and tc_c[1] == cls:
+            # an input passed through may come back wrapped in the class; where the tensordict returns itself the
+            # tensorclass may return itself or a fresh instance around the same tensordict (both are "re-wrapped")
+            return out
         if tc_c != td_c:
             out.append(f"{path}: the tensordict returns {td_c[1]}, the tensorclass returns {short(tc_c)}")
         return out
@@ -1192,6 +1214,8 @@ def judge(case, o_tc, o_td, o_td2):
                 if ks is not None and not set(ks) <= set(fields):
                     leaves_structure = True
     if o_tc["status"] == "raise":
+        if o_td.get("instance_raises"):
+            return "ok", [], flags + ["both-raise"]
         if leaves_structure:
             return "ok", [], flags + ["nonmatching-structure-rejected"]
         return "fail", [f"the tensordict returns {short(ref)}, the tensorclass raises {o_tc['exc']}: {o_tc.get('msg', '')[:100]}"], flags + ["tc-raises-only"]
@@ -1206,9 +1230,14 @@ def judge(case, o_tc, o_td, o_td2):
     # (1) content
     ntkeys = [k for k, v in (o_tc.get("nt_before") or [])]
     a, b = erase(res), erase(ref)
+    if ref == ["REF", "SELF"] and isinstance(res, list) and res and res[0] == "TC":
+        b = erase(o_td.get("post"))     # a fresh instance around the tensordict that returned itself
     a = drop_nt_fields(a, ntkeys, b)
     pa, pb = erase(o_tc.get("post")), erase(o_td.get("post"))
-    if unstable:
+    a, b, pa, pb = strip_lock(a), strip_lock(b), strip_lock(pa), strip_lock(pb)   # the lock flag is not an observable of C15
+    if outer and case["name"] in FORMATS:
+        return "ok", [], flags + ["format-not-compared"]
+    if unstable or "empty" in case["name"] or "rand" in case["name"]:
         a, b, pa, pb = strip_values(a), strip_values(b), strip_values(pa), strip_values(pb)
         if strip_values(erase(ref)) != strip_values(erase(ref2)):
             return "uninformative", [], flags + ["reference-structure-unstable"]
